@@ -89,6 +89,19 @@ struct Ctx {
     if (L.isInvalid()) return 0;
     return SM->getSpellingLineNumber(L);
   }
+  unsigned colOf(SourceLocation L) {
+    L = SM->getExpansionLoc(L);
+    if (L.isInvalid()) return 0;
+    return SM->getSpellingColumnNumber(L);
+  }
+  json::Array rangeOf(SourceRange R) {
+    json::Array a;
+    a.push_back((int64_t)lineOf(R.getBegin()));
+    a.push_back((int64_t)colOf(R.getBegin()));
+    a.push_back((int64_t)lineOf(R.getEnd()));
+    a.push_back((int64_t)colOf(R.getEnd()));
+    return a;
+  }
   bool inRoot(SourceLocation L) {
     if (Root.empty()) return true;
     std::string f = fileOf(L);
@@ -741,6 +754,44 @@ public:
     }
     fo["locals"] = std::move(ls);
 
+    // source ranges of the loop statements (init / increment / body), so that rules can tell a for-loop's step from its body
+    struct LoopCollector : RecursiveASTVisitor<LoopCollector> {
+      Ctx *C;
+      json::Array out;
+      bool VisitForStmt(ForStmt *F) {
+        json::Object o;
+        o["kind"] = "for";
+        o["line"] = (int64_t)C->lineOf(F->getBeginLoc());
+        if (F->getInit()) o["init"] = C->rangeOf(F->getInit()->getSourceRange());
+        if (F->getCond()) o["cond"] = C->rangeOf(F->getCond()->getSourceRange());
+        if (F->getInc()) o["inc"] = C->rangeOf(F->getInc()->getSourceRange());
+        if (F->getBody()) o["body"] = C->rangeOf(F->getBody()->getSourceRange());
+        out.push_back(std::move(o));
+        return true;
+      }
+      bool VisitWhileStmt(WhileStmt *W) {
+        json::Object o;
+        o["kind"] = "while";
+        o["line"] = (int64_t)C->lineOf(W->getBeginLoc());
+        if (W->getCond()) o["cond"] = C->rangeOf(W->getCond()->getSourceRange());
+        if (W->getBody()) o["body"] = C->rangeOf(W->getBody()->getSourceRange());
+        out.push_back(std::move(o));
+        return true;
+      }
+      bool VisitDoStmt(DoStmt *D) {
+        json::Object o;
+        o["kind"] = "do";
+        o["line"] = (int64_t)C->lineOf(D->getBeginLoc());
+        if (D->getCond()) o["cond"] = C->rangeOf(D->getCond()->getSourceRange());
+        if (D->getBody()) o["body"] = C->rangeOf(D->getBody()->getSourceRange());
+        out.push_back(std::move(o));
+        return true;
+      }
+    } LPC;
+    LPC.C = &C;
+    LPC.TraverseStmt(FD->getBody());
+    fo["loops"] = std::move(LPC.out);
+
     CFG::BuildOptions BO;
     BO.PruneTriviallyFalseEdges = true;
     BO.AddEHEdges = false;
@@ -852,6 +903,7 @@ public:
           ExprDumper D{C, &emap, S};
           eo["x"] = D.dump(S);
           eo["line"] = (int64_t)C.lineOf(S->getBeginLoc());
+          eo["col"] = (int64_t)C.colOf(S->getBeginLoc());
           SourceLocation L = S->getBeginLoc();
           if (L.isMacroID()) eo["m"] = C.macroStack(L);
         } else {
